@@ -77,6 +77,9 @@ SYNTHETIC = [
     "SELECT 1 /* ; /* nested ; */ ; */ , 2",
     "SELECT 1 -- ; not the end\n + 2",
     "SELECT 1 -- ;\n",
+    "SELECT 1 # first; then the rest of the remark\n",
+    "SELECT 2 #! note: a; b\n FROM system.one",
+    "SELECT 1 # ;\n + 2",
     "SELECT x FROM t WHERE s = ';' AND y = 2",
     "SELECT concat('a', ';', 'b'), `c;d`",
     "CREATE TABLE t (`a;b` Int32) ENGINE = Memory",
@@ -89,7 +92,8 @@ INVALID = [")", "FOO BAR", "SELECT 1 +", "SELECT FROM", "1 2 3", "SELECT (1", "]
 SHORT = ["SELECT 1", "SELECT 2", "SELECT a", "USE db", "SHOW TABLES", "SELECT ';'", "SELECT 1 + 2"]
 
 BLANKS = ["", "", " ", "  ", "\n", " \n ", "\t", "\r\n"]
-COMMENTS = ["/* ; */", "/* c */", "-- ;\n", "-- trailing; comment\n", "/**/", "/* a; /* b; */ c */"]
+COMMENTS = ["/* ; */", "/* c */", "-- ;\n", "-- trailing; comment\n", "/**/", "/* a; /* b; */ c */",
+            "# hash; comment\n", "#! shebang; style; x\n", "#;\n"]
 
 
 def filler(r):
